@@ -29,6 +29,7 @@ structure Thr where
   priv : List (Loc × Val) := []
   ridx : Nat := 0                      -- gp: reader index (from `READER n`)
   lastIter : String := ""              -- lfht: node of the thread's last iterator (RET lookup / first / next / next_dup)
+  lastNext : String := "0"             -- lfht: its `next` word
   cur : Option Call := none
   deriving Inhabited
 
@@ -276,6 +277,14 @@ def callSpec (d : D) (ws : List String) : Option (String × Stmt × List String 
   | "lfht", ["add_replace", n, h, k] =>
     (node n).map fun v => ("lfht.add_replace", «lfht.cds_lfht_add_replace», «lfht.cds_lfht_add_replace.params»,
       [.ptr (.glob "ht"), .int (h.toNat?.getD 0), .int 77, .int (k.toNat?.getD 0), v])
+  | "lfht", ["first"] => some ("lfht.first", «lfht.cds_lfht_first», «lfht.cds_lfht_first.params», [.ptr (.glob "ht"), .ptr (.glob "&iter")])
+  | "lfht", ["next"] => some ("lfht.next", «lfht.cds_lfht_next», «lfht.cds_lfht_next.params», [.ptr (.glob "ht"), .ptr (.glob "&iter")])
+  | "lfht", ["next_dup", k] =>
+    some ("lfht.next_dup", «lfht.cds_lfht_next_duplicate», «lfht.cds_lfht_next_duplicate.params»,
+      [.ptr (.glob "ht"), .int 77, .int (k.toNat?.getD 0), .ptr (.glob "&iter")])
+  | "lfht", ["replace", n, h, k] =>
+    (node n).map fun v => ("lfht.replace", «lfht.cds_lfht_replace», «lfht.cds_lfht_replace.params»,
+      [.ptr (.glob "ht"), .ptr (.glob "&iter"), .int (h.toNat?.getD 0), .int 77, .int (k.toNat?.getD 0), v])
   | "lfht", ["lookup", h, k] =>
     some ("lfht.lookup", «lfht.cds_lfht_lookup», «lfht.cds_lfht_lookup.params»,
       [.ptr (.glob "ht"), .int (h.toNat?.getD 0), .int 77, .int (k.toNat?.getD 0), .ptr (.glob "&iter")])
@@ -397,6 +406,11 @@ def finishSearch (d : D) (t : Nat) (th : Thr) (c : Call) (complete : Bool) : Exc
     | .field (.obj k) "reverse_hash" => if lfht then (d.nodeHash.find? (·.1 == k)).map (fun p => Val.int (bitrev64 p.2)) else privFn priv0 l
     | .field (.glob g) "reverse_hash" => if lfht && g.startsWith "b" then some (.int (bitrev64 (bidx g))) else privFn priv0 l
     | .field (.glob "ht") _ => if lfht then some (.int 0) else privFn priv0 l      -- plain configuration words of the table
+    | .field (.glob "&iter") f =>
+      if lfht then
+        (match valOf (if f == "node" then th.lastIter else if f == "next" then th.lastNext else "0") with
+         | .ok v => some v | .error _ => some (.int 0))
+      else privFn priv0 l
     | _ => privFn priv0 l
   let env : Env := { vars := bindParams c.params c.args, priv := if lfht then privL else privFn priv0 }
   let choices : List Val := [.int 0, .int 1] ++ (List.range 8).map fun r => Val.ptr (.obj (r + 1))
@@ -482,9 +496,6 @@ def drive (d : D) (ws : List String) : Except String D :=
             | _, _ => d
           else d
         | _ => d
-      let th := match rest with
-        | "RET" :: op :: n :: _ => if d.mode == "lfht" && op ∈ ["lookup", "first", "next", "next_dup"] then { th with lastIter := n } else th
-        | _ => th
       match rest with
       | ["READER", r] => .ok (d.setT tid { th with ridx := r.toNat?.getD 0 })
       | "CALL" :: c =>
@@ -501,10 +512,18 @@ def drive (d : D) (ws : List String) : Except String D :=
           | some (op, fn, ps, as) =>
             .ok (d.setT tid { th with cur := some { op := op, fn := fn, params := ps, args := as, search := op.endsWith ".sync" || op.startsWith "lfht.", gpctr0 := d.gpctr } })
           | none => .ok { d with cov := bump d.cov s!"skipped:{c.headD ""}" }
-      | "RET" :: _ =>
+      | "RET" :: retws =>
+        -- lfht: the iterator the call leaves behind is the next call's input (recorded after this call is compared)
+        let setIter (d : D) : D := match retws with
+          | op :: n :: rest' =>
+            if d.mode == "lfht" && op ∈ ["lookup", "first", "next", "next_dup"] then
+              let t' := d.getT tid
+              d.setT tid { t' with lastIter := n, lastNext := rest'.headD "0" }
+            else d
+          | _ => d
         match th.cur with
-        | some c => finish d tid th c true
-        | none => .ok d
+        | some c => (finish d tid th c true).map setIter
+        | none => .ok (setIter d)
       | "SIG_ENTER" :: _ => .error "trace with signal handlers: not supported by drv_src (run the scenario with sig=0)"
       | ev =>
         match th.cur with
